@@ -498,6 +498,19 @@ def check_process_state(repo: Repo, rep: Report):
                     if tgt in ("sys", "os", "locale", "gc", "warnings", "builtins") and (isinstance(t, ast.Subscript) or "." in d):
                         n += 1
                         rep.bad("C13.no-process-state", qn, f"process-store:{d}", f"`{src(st)}` writes `{d}` (process-wide state) from inside a read-only query", f.file, st.lineno)
+    # import-time module code: a setting changed when the package is imported holds for the whole process
+    for m in repo.modules.values():
+        if not m.name.startswith("fickling"):
+            continue
+        for st in m.tree.body:
+            if isinstance(st, (ast.FunctionDef, ast.AsyncFunctionDef, ast.ClassDef)):
+                continue
+            for c0 in ast.walk(st):
+                if isinstance(c0, ast.Call):
+                    q = repo.resolve_expr(m, c0.func) or ""
+                    if q in PROCESS_STATE_SETTERS:
+                        n += 1
+                        rep.bad("C13.no-process-state", f"{m.name} (import time)", f"process-setting:{q}", f"`{src(c0)}` runs when {m.name} is imported and changes a process-wide setting for everything else in the process: what fickling (and the program embedding it) accepts, refuses or renders now differs from a process that has not imported it - e.g. integers the default configuration refuses to print are written into pickles that a default-configured reader cannot load", m.relpath, c0.lineno)
     rep.ok("C13.no-process-state", "fickling/* (query entry points)", f"{len(reached)} reached functions, {len(sites)} call sites: {n} change(s) of process-wide settings", "")
 
 
